@@ -176,6 +176,18 @@ CHECKS["C07"] = dict(
          "grep); a filterable spec without filters raises NoFilterException under a host context.",
     note="Outside: filters.yaml loading (yaml C code), filters containing newlines, grep's own matching beyond replay.")
 
+CHECKS["C06"] = dict(
+    text="Bounded symbolic execution of the real containment / deny-list / destination code: FileProvider.validate with the "
+         "kernel's realpath answers for the path as written, for its lexically collapsed form and for the root as independent "
+         "symbolic normalised absolute paths (<=5 chars quick / <=7 thorough over / a b .): accepted iff the real location is the "
+         "root or below it on a separator boundary; allow_file / allow_command on symbolic entries and candidates added in every "
+         "order; every declarative factory evaluated under a recording host context with one item deny-listed; the six "
+         "serializers' destination for a symbolic relative path (through an instrumented posixpath) must normalise to a "
+         "location beneath the output directory; mangle_command on symbolic commands (SymRe) never yields '/', '.' or '..'.",
+    note="One recorded finding: relative paths with net-upward '..' are persisted outside the data directory (known_findings.txt). "
+         "Containment counterexamples are replayed with real directories and symlinks. Outside: the kernel's resolution itself, "
+         "container factories, absolute / '..' save_as constants.")
+
 NOT_APPLICABLE = {
 }
 
